@@ -18,7 +18,9 @@ THEOREMS = [
 ]
 RULE = ("operations on real files in a per-run scratch directory through session.NewFromFile(...).Store/Load and "
         "mtproto.NewMTProto: round trips on six path shapes, store/load histories with forced (equal) modification "
-        "times and up to three loaders, histories on the real clock, every strict prefix of written files, files of "
+        "times and up to three loaders (a loader whose last successful Load saw another modification time must "
+        "behave like a fresh one), a loaded long-lived loader under another writer cut short at every byte, "
+        "histories on the real clock, every strict prefix of written files, files of "
         "other shapes, restart on a present / missing / torn store; distinct = distinct operation lines; each is "
         "compared with the Lean model and judged by the property's own reading")
 
